@@ -345,17 +345,18 @@ def run_import_geff(x):
         nm = {"time": "t", "pos": ["y", "x"]}
         feats = {}
         for tgt, src in x["map"]:
-            nm["f_" + tgt] = src
-            feats["f_" + tgt] = False
+            # the standard key is itself one of the property names, so that maps can chain / swap names
+            nm[tgt] = src
+            feats[tgt] = False
         tr = import_from_geff(d / "s.zarr", node_name_map=nm, node_features=feats or None)
         got = []
         for tgt, _ in x["map"]:
             carried = set()
             for n, _, _, _ in nodes:
-                v = tr.graph.nodes[n].get("f_" + tgt)
+                v = tr.graph.nodes[n].get(tgt)
                 carried.add(next((p for p, b in PROP_BASE.items() if v is not None and float(v) == float(b + n)), "?"))
             got.append([tgt, carried.pop() if len(carried) == 1 else "?"])
-        extra = [k for n in tr.graph.nodes for k in tr.graph.nodes[n] if k.startswith("f_") and k[2:] not in [t for t, _ in x["map"]]]
+        extra = [k for n in tr.graph.nodes for k in tr.graph.nodes[n] if k in PROP_BASE and k not in [t for t, _ in x["map"]]]
         x["got"] = got + [["extra", "?"]] * (1 if extra else 0)
         x["nodes_ok"] = sorted(tr.graph.nodes) == sorted(n for n, _, _, _ in nodes) and all(
             int(tr.graph.nodes[n]["time"]) == t and [float(v) for v in tr.graph.nodes[n]["pos"]] == [y, xx]
